@@ -548,7 +548,8 @@ impl Scenario for Conc {
             let k = 1 + c_a(4) as usize;
             prog.push((0..k).map(|_| gen_op(&g, hot)).collect());
         }
-        let bm = Arc::new(AtomicBitmap::new(g.byte_size, g.ps));
+        // a third of the bitmaps reach their size through enlarge
+        let bm = Arc::new(crate::world::grown_bitmap(g.byte_size, g.ps.get()));
         cx().mode = Mode::Setup;
         register_words(&bm);
         let res = run_actors(&bm, &prog);
@@ -662,7 +663,8 @@ impl Scenario for Canon {
             pages: 128,
             byte_size: 128,
         };
-        let bm = Arc::new(AtomicBitmap::new(g.byte_size, g.ps));
+        // a third of the bitmaps reach their size through enlarge
+        let bm = Arc::new(crate::world::grown_bitmap(g.byte_size, g.ps.get()));
         cx().mode = Mode::Setup;
         register_words(&bm);
         let preset: BTreeSet<usize> = preset.into_iter().collect();
